@@ -21,6 +21,7 @@ GET_FOR = "automerge::automerge::Automerge::get_for"
 def run(ctx):
     ctx.rule("W1", "every successor-walking visibility predicate tests the successor's increment value (an increment does not hide a counter)")
     ctx.rule("W4", "OpSet::add_succ_with_undo: the flag that stops further exposure is set at the first surviving value of the register whether or not a deletion was seen above it (only the highest surviving value can become the winner); the exposing store is behind that flag == false")
+    ctx.rule("W6", "OpSet::add_succ_with_undo: the exposing store goes through OpSet::expose, which sets the top flag and the text-index width together")
     ctx.rule("W5", "InsertQuery::resolve: the scan position used for an append is advanced on every iteration of the scan, also when an increment op is skipped")
     ctx.rule("W2", "Automerge::get_for: the value returned for a key / index is the last of the found ops (next_back / last), never first / next / nth")
     f = C01.check_order(ctx)
@@ -78,8 +79,9 @@ def check_expose_once(ctx, f):
     AS = "automerge::op_set2::op_set::OpSet::add_succ_with_undo"
     b = ctx.body(AS)
     ctx.analysed_fns.add(AS)
-    # the exposing store: top.splice(pos, 1, [true])
+    # the exposing store: top.splice(pos, 1, [true]), or OpSet::expose which does that and restores the text width
     sites = []
+    raw = []
     for bi, t in b.calls():
         if (norm_fn(t.get("fn")) or "").split("::")[-1] == "splice" and t.get("args"):
             o = b.operand_origin(t["args"][0])
@@ -87,7 +89,15 @@ def check_expose_once(ctx, f):
                 pv = b.provenance(t["args"][3], through_calls=False) if len(t["args"]) > 3 else None
                 if pv and ("bool", "1") in {(ty, v) for ty, v in pv.consts}:
                     sites.append((bi, t))
-    ctx.floor("exposing stores (top := true) in add_succ_with_undo", len(sites), 1)
+                    raw.append((bi, t))
+        if (callee(t) or "").endswith("op_set::OpSet::expose"):
+            sites.append((bi, t))
+    ctx.floor("exposing stores (top := true / OpSet::expose) in add_succ_with_undo", len(sites), 1)
+    # W6: the op that becomes an element's winner also carries the element's width in the text index (OpSet::expose sets both)
+    for k, (bi, t) in util.ordinal_keys(sites, lambda it: "add_succ_with_undo|exposed op carries the text width"):
+        ok = (bi, t) not in raw
+        ctx.ob("W6", k, ok, t["sp"], "through OpSet::expose (top and text width together)" if ok else
+               "a surviving value is made the element's top op without the text-index width that conflict() cleared: in a text, length(), get() and cursors no longer agree with text()")
     bool_locals = [l for l in range(b.argc + 1, len(b.rec.get("locals", []))) if b.local_ty(l) == "bool" and b.local_name(l)]
     for k, (bi, t) in util.ordinal_keys(sites, lambda it: "add_succ_with_undo|expose"):
         ok_any = False
